@@ -106,7 +106,10 @@ def emitOptEntries (os : List OptEntry) : Enc → ERes Unit :=
 /-- has `RData::emit` a model for this variant? -/
 def RData.emitModelled : RData → Bool
   | .a _ | .aaaa _ | .name _ | .mx _ _ | .soa _ _ _ _ _ _ _ | .txt _ | .srv _ _ _ _ | .hinfo _ _
-  | .null _ | .unknown _ _ | .opt _ | .update0 _ | .zero | .tsig _ _ _ _ _ _ _ => true
+  | .null _ | .unknown _ _ | .opt _ | .update0 _ | .zero | .tsig _ _ _ _ _ _ _
+  | .ds _ _ _ _ | .dnskey _ _ _ _ | .tlsa _ _ _ _ | .sshfp _ _ _ | .openpgpkey _ | .cert _ _ _ _
+  | .nsec3param _ _ _ | .caa _ _ _ _ | .key _ _ _ _ | .naptr _ _ _ _ _ _
+  | .sig _ _ _ _ _ _ _ _ _ => true
   | _ => false
 
 /-- `impl BinEncodable for RData` for a record of type `t` (the type selects the
@@ -145,6 +148,42 @@ def emitRData (t : Nat) : RData → Enc → ERes Unit
                fun e1 => e1.emitSlice mac, fun e1 => e1.emitU16 oid, fun e1 => e1.emitU16 err,
                fun e1 => if other.length > 65535 then .err .other e1 else e1.emitU16 other.length,
                fun e1 => e1.emitSlice other])
+  -- the name-free "blob" family (stage 3): fixed fields, then the rest of the RDATA as it is
+  | .ds tag alg dt digest =>                                 -- DS / CDS (`None` algorithm = 0)
+    seqAll [fun e => e.emitU16 tag, fun e => e.emitU8 alg, fun e => e.emitU8 dt, fun e => e.emitSlice digest]
+  | .dnskey _ flags alg key =>                               -- DNSKEY / CDNSKEY: protocol is always 3
+    seqAll [fun e => e.emitU16 flags, fun e => e.emitU8 3, fun e => e.emitU8 alg, fun e => e.emitSlice key]
+  | .tlsa u sel m d =>                                       -- TLSA / SMIMEA
+    seqAll [fun e => e.emitU8 u, fun e => e.emitU8 sel, fun e => e.emitU8 m, fun e => e.emitSlice d]
+  | .sshfp a f d => seqAll [fun e => e.emitU8 a, fun e => e.emitU8 f, fun e => e.emitSlice d]
+  | .openpgpkey d => fun e => e.emitSlice d
+  | .cert ct tag alg d =>
+    fun e => e.withRdataBehavior .other
+      (seqAll [fun e1 => e1.emitU16 ct, fun e1 => e1.emitU16 tag, fun e1 => e1.emitU8 alg,
+               fun e1 => e1.emitSlice d])
+  | .nsec3param optOut iter salt =>                          -- hash algorithm 1; `salt().len() as u8`
+    seqAll [fun e => e.emitU8 1, fun e => e.emitU8 (if optOut then 1 else 0), fun e => e.emitU16 iter,
+            fun e => e.emitU8 (salt.length % 256), fun e => e.emitSlice salt]
+  | .caa critical reserved tag value =>                      -- `flags()`, `emit_tag` (len > 255: Err)
+    fun e => e.withRdataBehavior .other
+      (seqAll [fun e1 => e1.emitU8 (reserved % 128 + (if critical then 128 else 0)),
+               fun e1 => if tag.length > 255 then .err .other e1 else e1.emitU8 tag.length,
+               fun e1 => e1.emitSlice tag, fun e1 => e1.emitSlice value])
+  | .key flags proto alg k =>                                -- `flags()` reassembles the accepted flags word
+    seqAll [fun e => e.emitU16 flags, fun e => e.emitU8 proto, fun e => e.emitU8 alg, fun e => e.emitSlice k]
+  -- name-bearing, never compressed (`RDataEncoding::Canonical`)
+  | .naptr order pref flags services regexp n =>
+    fun e => e.withRdataBehavior .canonical
+      (seqAll [fun e1 => e1.emitU16 order, fun e1 => e1.emitU16 pref, fun e1 => e1.emitCharacterData flags,
+               fun e1 => e1.emitCharacterData services, fun e1 => e1.emitCharacterData regexp,
+               fun e1 => Name.emit e1 n])
+  | .sig covered alg labels ottl exp inc tag signer sg =>    -- SIG / RRSIG: `SigInput::emit`, then the signature
+    fun e => e.withRdataBehavior .canonical
+      (seqAll [fun e1 => e1.withRdataBehavior .canonical
+                 (seqAll [fun e2 => e2.emitU16 covered, fun e2 => e2.emitU8 alg, fun e2 => e2.emitU8 labels,
+                          fun e2 => e2.emitU32 ottl, fun e2 => e2.emitU32 exp, fun e2 => e2.emitU32 inc,
+                          fun e2 => e2.emitU16 tag, fun e2 => Name.emit e2 signer]),
+               fun e1 => e1.emitSlice sg])
   | _ => fun _ => .panic "unmodelled-rdata-emit"
 
 /-! ## record -/
